@@ -44,7 +44,7 @@ def aBest (cs : List Q) (vco : Q) (o : Out) : Option (Q × Q) :=
   let rec go : List Q → Option (Q × Q) → Option (Q × Q)
     | [], acc => acc
     | c :: rest, acc =>
-      let diff := ((vco.div c).sub o.freq).abs
+      let diff := (vco.div c).absDiff o.freq
       let better := match acc with
         | none => true
         | some (_, bd) => diff.lt bd
@@ -59,8 +59,8 @@ def aOuts (cs : List Q) (vco : Q) : List Out → Option (List (Q × Q))
     | some x => (aOuts cs vco os).map (x :: ·)
 
 def aNRange (d : ADev) (r : AReq) : List Nat :=
-  let minN := max ((r.clkin.div d.pfdMax).ceil.toNat) d.nLo
-  let maxN := min ((r.clkin.div d.pfdMin).floor.toNat + 1) d.nHi
+  let minN := max ((r.clkin.div d.pfdMax).ceil) d.nLo
+  let maxN := min ((r.clkin.div d.pfdMin).floor + 1) d.nHi
   pyRange minN maxN
 
 def aTry (d : ADev) (r : AReq) (cs : List Q) (n m : Nat) : Option (ACfg × Q) :=
